@@ -69,6 +69,9 @@ def renamed(sp):
 def permuted(sp):
     rng = random.Random(str(sp['seed']) + '/perm')
     v = copy.deepcopy(sp)
+    for a in v['assets']:
+        if a['kind'] == 'StructuredAsset' and len(a['assets']) > 1:
+            a['assets'] = a['assets'][::-1] if rng.random() < 0.5 else rng.sample(a['assets'], len(a['assets']))     # the wrapped assets in another order, too
     while True:
         rng.shuffle(v['assets'])
         if [a['name'] for a in v['assets']] != [a['name'] for a in sp['assets']] or len(v['assets']) < 2:
@@ -112,7 +115,9 @@ def run(ctx):
         return
     n = 50 if ctx.tier == 'quick' else 400
     # order books whose last order has no step in the horizon (a variable without mapping row), at any position of the asset list
-    specs = ctx.specs(util.corpus(ctx.prop) + gen.gen_many(ctx.seed, n, CFG, 'c09_') + util.orderbook_tail_specs(ctx.seed, 10 if ctx.tier == 'quick' else 60, 'c09ob_', split=False))
+    specs = ctx.specs(util.corpus(ctx.prop) + gen.gen_many(ctx.seed, n, CFG, 'c09_') + util.orderbook_tail_specs(ctx.seed, 10 if ctx.tier == 'quick' else 60, 'c09ob_', split=False)
+                      # structured assets with an own life time wrapping assets with life times of their own
+                      + gen.gen_many(ctx.seed, n // 3, dict(CFG, p_struct_window=1.0, p_window_inner=0.8, kinds={'StructuredAsset': 4, 'SimpleContract': 1}), 'c09st_'))
     base = [sp for sp in specs if not sp['id'].endswith(('+ren', '+perm'))]
     rens = [renamed(sp) for sp in base]
     perms = [permuted(sp) for sp in base]
